@@ -364,9 +364,13 @@ def check(model: Model, report: Report) -> None:
     _pipeline.check_tokenize_setup(model, report, "R19.6")
     check_position(model, report, "R19.1")
     report.rule("R19.7", "position() and str(error) are evaluated on the token at hand: uncached, or cached under a key (__eq__/__hash__) that covers every attribute they read")
+    report.rule("R19.8", "the lexer's pointer stays inside the query: no step hands over with pos > len(query) to a state that then reports an error at that pointer")
     check_no_stale_position(model, report, "R19.7")
     check_token_sites(model, report, "R19.2")
     check_raise_sites(model, report, "R19.3")
     check_str(model, report, "R19.4")
     check_error_classes(model, report, "R19.5")
+    from . import _lexstates
+
+    _lexstates.check_pointer_in_range(model, report, "R19.8")
     report.extra["explanation"] = "C19: position formula compared as linear forms over text-scan terms whose receiver/bounds must be the query and [0,index); constructor-site and raise-site rules over the AST."
